@@ -435,4 +435,113 @@ theorem closed_foldl (acts : List Act) {s : State} (h : s.closed = true) : (acts
   | nil => exact h
   | cons a rest ih => exact ih (closed_stepD h)
 
+/-- nothing is invented: whatever is in flight, delivered or aborted was begun by a Send* call -/
+structure Inv2 (s : State) : Prop where
+  putsBegun : ∀ m ∈ s.puts, m ∈ s.begun
+  selBegun : ∀ p m, s.ppc p = .sel m → m ∈ s.begun
+  abortedBegun : ∀ m ∈ s.aborted, m ∈ s.begun
+
+theorem inv2_beginSend {s : State} {p : Nat} {t : TaskRef} (h : Inv2 s) : Inv2 (beginSend s p t) := by
+  constructor
+  all_goals simp only [beginSend]
+  · intro m hm; simp [h.putsBegun m hm]
+  · intro p' m' hp'
+    by_cases hpp : p' = p
+    · subst hpp; rw [upd_same] at hp'; injection hp' with hp'; subst hp'; simp
+    · rw [upd_other _ _ _ _ hpp] at hp'; simp [h.selBegun p' m' hp']
+  · intro m hm; simp [h.abortedBegun m hm]
+
+theorem inv2_step {s s' : State} {a : Act} (h : Inv2 s) (hs : step s a = some s') : Inv2 s' := by
+  cases a with
+  | sendCallback p b =>
+    simp only [step] at hs
+    split at hs <;> try contradiction
+    split at hs
+    · injection hs with hs; subst hs
+      exact inv2_beginSend (s := alloc s) ⟨h.putsBegun, h.selBegun, h.abortedBegun⟩
+    · injection hs with hs; subst hs; exact ⟨h.putsBegun, h.selBegun, h.abortedBegun⟩
+  | sendTask p t =>
+    simp only [step] at hs
+    split at hs <;> try contradiction
+    split at hs
+    · injection hs with hs; subst hs; exact ⟨h.putsBegun, h.selBegun, h.abortedBegun⟩
+    · split at hs <;> try contradiction
+      injection hs with hs; subst hs; exact inv2_beginSend h
+    · injection hs with hs; subst hs; exact inv2_beginSend h
+  | put p =>
+    simp only [step] at hs
+    split at hs <;> try contradiction
+    rename_i m hm
+    split at hs <;> try contradiction
+    injection hs with hs; subst hs
+    refine ⟨?_, ?_, h.abortedBegun⟩
+    · intro a ha; simp at ha
+      rcases ha with ha | ha
+      · exact h.putsBegun a ha
+      · subst ha; exact h.selBegun p _ hm
+    · intro p' m' hp'
+      simp only [] at hp'
+      by_cases hpp : p' = p
+      · subst hpp; simp [upd] at hp'
+      · rw [upd_other _ _ _ _ hpp] at hp'; exact h.selBegun p' m' hp'
+  | abort p =>
+    simp only [step] at hs
+    split at hs <;> try contradiction
+    rename_i m hm
+    split at hs <;> try contradiction
+    injection hs with hs; subst hs
+    refine ⟨h.putsBegun, ?_, ?_⟩
+    · intro p' m' hp'
+      simp only [] at hp'
+      by_cases hpp : p' = p
+      · subst hpp; simp [upd] at hp'
+      · rw [upd_other _ _ _ _ hpp] at hp'; exact h.selBegun p' m' hp'
+    · intro a ha; simp at ha
+      rcases ha with ha | ha
+      · exact h.abortedBegun a ha
+      · subst ha; exact h.selBegun p _ hm
+  | close => simp only [step] at hs; injection hs with hs; subst hs; exact ⟨h.putsBegun, h.selBegun, h.abortedBegun⟩
+  | recv =>
+    simp only [step] at hs
+    split at hs <;> try contradiction
+    injection hs with hs; subst hs; exact ⟨h.putsBegun, h.selBegun, h.abortedBegun⟩
+  | call r =>
+    simp only [step] at hs
+    split at hs <;> try contradiction
+    injection hs with hs; subst hs; exact ⟨h.putsBegun, h.selBegun, h.abortedBegun⟩
+  | store =>
+    simp only [step] at hs
+    split at hs <;> try contradiction
+    injection hs with hs; subst hs; exact ⟨h.putsBegun, h.selBegun, h.abortedBegun⟩
+  | finish =>
+    simp only [step] at hs
+    split at hs <;> try contradiction
+    split at hs <;> (injection hs with hs; subst hs; exact ⟨h.putsBegun, h.selBegun, h.abortedBegun⟩)
+  | doOther =>
+    simp only [step] at hs
+    split at hs <;> try contradiction
+    all_goals (injection hs with hs; subst hs; exact ⟨h.putsBegun, h.selBegun, h.abortedBegun⟩)
+  | redo id =>
+    simp only [step] at hs
+    split at hs <;> try contradiction
+    split at hs <;> try contradiction
+    injection hs with hs; subst hs; exact ⟨h.putsBegun, h.selBegun, h.abortedBegun⟩
+
+theorem inv2_run (cap : Nat) (acts : List Act) : Inv2 (run cap acts) := by
+  unfold run
+  suffices ∀ s, Inv2 s → Inv2 (acts.foldl stepD s) from this _ ⟨by simp [init], by simp [init], by simp [init]⟩
+  induction acts with
+  | nil => intro s h; exact h
+  | cons a rest ih =>
+    intro s h
+    apply ih
+    unfold stepD
+    cases hs : step s a with
+    | none => exact h
+    | some s' => exact inv2_step h hs
+
+theorem prodOrdered_nodup {l : List Msg} (h : ProdOrdered l) : l.Nodup := by
+  unfold ProdOrdered at h
+  exact h.imp (fun {a b} hab heq => by subst heq; exact absurd (hab rfl) (Nat.lt_irrefl _))
+
 end Got.Model.TaskQ
